@@ -613,8 +613,11 @@ class Explorer:
                 va[bb] = v
         q.items = set(items)
         if s is not None and self._state(q, frame) != s:
-            raise ExplorerError("in-place snapshot no longer reproduces its state "
-                                "(a stored lattice value was mutated in place?)")
+            # a stored lattice value was mutated in place by the analysis: the in-place strategy cannot be
+            # trusted for this invocation; explore it again by stateless replay (which re-runs the analysis
+            # from scratch for every schedule) and let the oracle judge the results
+            self.inplace_fallbacks = getattr(self, "inplace_fallbacks", 0) + 1
+            raise _InplaceFallback()
         q.choices = list(path)
         self._ip_devs = devs + 1
         self._x.src = (sid, c) if sid is not None else None
